@@ -14,7 +14,7 @@ use std::fmt;
 
 /// no document of the streams has more than a few hundred tokens: an iterator that yields more than
 /// CAP items, or a JSON text longer than OUT_CAP bytes, is a runaway (reported, not followed)
-const CAP: usize = 100_000;
+pub const CAP: usize = 100_000;
 const OUT_CAP: usize = 1 << 18;
 
 struct LimitedWriter {
@@ -34,24 +34,24 @@ impl std::io::Write for LimitedWriter {
     }
 }
 
-fn tok_str(t: &TextToken) -> String {
+pub fn tok_str(t: &TextToken) -> String {
     show_tokens(std::slice::from_ref(t))
 }
 
-fn idx_of<E>(tokens: &[TextToken], v: &ValueReader<E>) -> usize {
+pub fn idx_of<E>(tokens: &[TextToken], v: &ValueReader<E>) -> usize {
     let base = tokens.as_ptr() as usize;
     let p = v.token() as *const TextToken as usize;
     (p - base) / std::mem::size_of::<TextToken>()
 }
 
-fn str_of<E: Encoding + Clone>(v: &ValueReader<E>) -> String {
+pub fn str_of<E: Encoding + Clone>(v: &ValueReader<E>) -> String {
     match v.read_str() {
         Ok(s) => hex(s.as_bytes()),
         Err(_) => "E".to_string(),
     }
 }
 
-fn op_str(op: &Option<Operator>) -> String {
+pub fn op_str(op: &Option<Operator>) -> String {
     match op {
         Some(o) => format!("{}", op_code(o)),
         None => "-".to_string(),
@@ -176,7 +176,7 @@ fn find_in_values<'d, 't, E: Encoding + Clone>(
     None
 }
 
-fn find_in_object<'d, 't, E: Encoding + Clone>(
+pub fn find_in_object<'d, 't, E: Encoding + Clone>(
     tokens: &'t [TextToken<'d>],
     o: &ObjectReader<'d, 't, E>,
     target: usize,
@@ -471,7 +471,7 @@ static CASE_SEQ: AtomicU64 = AtomicU64::new(0);
 static WATCHDOG: std::sync::Once = std::sync::Once::new();
 const WATCHDOG_MS: u64 = 4000;
 
-fn watchdog_enter() {
+pub fn watchdog_enter() {
     WATCHDOG.call_once(|| {
         std::thread::spawn(|| {
             let mut last = 0u64;
@@ -491,7 +491,7 @@ fn watchdog_enter() {
     CASE_SEQ.fetch_add(1, Ordering::SeqCst);
 }
 
-struct WatchdogGuard;
+pub struct WatchdogGuard;
 impl Drop for WatchdogGuard {
     fn drop(&mut self) {
         CASE_SEQ.fetch_add(1, Ordering::SeqCst);
@@ -500,6 +500,10 @@ impl Drop for WatchdogGuard {
 
 pub fn dispatch(kind: &str, a: &[&str]) -> Option<String> {
     if !(kind.starts_with("dom.") || kind.starts_with("json.")) {
+        return None;
+    }
+    // kinds of the sibling files fam_domiter.rs / fam_jsontext.rs
+    if kind == "dom.iter" || kind == "dom.leaf" || kind == "json.print" || kind == "json.entry" {
         return None;
     }
     watchdog_enter();
